@@ -1,17 +1,18 @@
 #!/bin/sh
 # usage: tools/try_seed.sh <patch.diff> [tier] [props...]
-# Applies a seeded change to /repo's working tree, runs the named checks
-# (default: all claimed, quick) WITHOUT touching the committed evidence, and
-# restores /repo.  Prints one line per property: CAUGHT / missed.
+# Applies a seeded change to a SCRATCH worktree of /repo (never to /repo itself),
+# builds the harness against it (VERIF_REPO) and runs the named checks (default:
+# all claimed, quick) without touching the committed evidence.
+# Prints one line per property: CAUGHT <class> / missed.
 PATCH="$1"; TIER="${2:-quick}"; shift 2 2>/dev/null
 PROPS="${*:-C01 C03 C04 C05 C13 C14 C15 C17}"
 HERE="$(cd "$(dirname "$0")/.." && pwd)"
 BIN="$HERE/sim/target/release/h263-sim"
-git -C /repo diff --quiet || { echo "/repo has uncommitted changes"; exit 2; }
-git -C /repo apply "$PATCH" || { echo "patch does not apply"; exit 2; }
-trap 'git -C /repo checkout -- . ; (cd "$HERE/sim" && cargo build --release --offline >/dev/null 2>&1)' EXIT
-if ! (cd /repo && cargo test --workspace --offline >/dev/null 2>&1); then echo "NOTE: the repository's own tests FAIL with this patch"; fi
-if ! (cd "$HERE/sim" && cargo build --release --offline >"$HERE/sim/build.log" 2>&1); then echo "harness does not build with this patch"; tail -5 "$HERE/sim/build.log"; exit 2; fi
+WT="/tmp/wt_seed.$$"
+git -C /repo worktree add -q --detach "$WT" HEAD || exit 2
+trap 'git -C /repo worktree remove --force "$WT" >/dev/null 2>&1; "$HERE/check" build >/dev/null 2>&1' EXIT
+git -C "$WT" apply "$PATCH" || { echo "patch does not apply"; exit 2; }
+if ! VERIF_REPO="$WT" "$HERE/check" build 2>/dev/null; then echo "harness does not build with this patch"; exit 2; fi
 for P in $PROPS; do
     OUT=$(VERIF_DIR="$HERE" "$BIN" run "$P" "$TIER" --no-evidence 2>&1)
     rc=$?
